@@ -48,11 +48,13 @@ func renderIGCLine(l igcLine) string {
 		}
 		return s
 	case "B":
-		lat := "4730000N"
-		if !l.Ok {
+		lat, alt := "4730000N", "0050000600"
+		if !l.Ok && l.Sec%2 == 0 {
 			lat = "47X0000N"
+		} else if !l.Ok {
+			alt = "005000060X" // every field up to the last altitude digit is valid
 		}
-		s := fmt.Sprintf("B%02d%02d%02d%s00830000EA0050000600", l.Sec/3600, (l.Sec/60)%60, l.Sec%60, lat)
+		s := fmt.Sprintf("B%02d%02d%02d%s00830000EA%s", l.Sec/3600, (l.Sec/60)%60, l.Sec%60, lat, alt)
 		for len(s) < l.Len {
 			s += "0"
 		}
